@@ -61,6 +61,15 @@ impl Response {
             }
         };
 
+        // A raw body is not (necessarily) JSON, its content-type can only be set with a header
+        // field.
+        let content_type_header =
+            if self.fields.iter().any(|field| field.as_raw_body_field().is_some()) {
+                TokenStream::new()
+            } else {
+                quote! { .header(#http::header::CONTENT_TYPE, "application/json") }
+            };
+
         quote! {
             #[automatically_derived]
             #[cfg(feature = "server")]
@@ -70,7 +79,7 @@ impl Response {
                 ) -> ::std::result::Result<#http::Response<T>, #ruma_common::api::error::IntoHttpError> {
                     let mut resp_builder = #http::Response::builder()
                         .status(#http::StatusCode::#status_ident)
-                        .header(#http::header::CONTENT_TYPE, "application/json");
+                        #content_type_header;
 
                     if let Some(mut headers) = resp_builder.headers_mut() {
                         #(#serialize_response_headers)*
